@@ -36,6 +36,7 @@ func SingleOps(cfg *world.Config, persist bool, extra ...world.Op) []world.Op {
 	}
 	if persist && !cfg.InMemory {
 		ops = append(ops, world.Op{Kind: world.OpPersist}, world.Op{Kind: world.OpReload})
+		ops = append(ops, FlushFaultOps(cfg, 0)...)
 	}
 	// continue on a clone of the tree (the original is dropped)
 	ops = append(ops, world.Op{Kind: world.OpClone, A: 0, B: 0})
@@ -169,4 +170,16 @@ func entriesOf(cfg *world.Config, c world.Contents) []ref.Entry {
 		es = append(es, ref.Entry{K: cfg.Keys[k], V: v})
 	}
 	return es
+}
+
+// FlushFaultOps: the failing-MakeRoot part of the alphabet for one tree slot (empty unless the configuration asks for it).
+func FlushFaultOps(cfg *world.Config, slot int) []world.Op {
+	if !cfg.FlushFaults || cfg.InMemory {
+		return nil
+	}
+	var ops []world.Op
+	for _, v := range []int{0, 1, 2, 10, 11, 12, 14} {
+		ops = append(ops, world.Op{Kind: world.OpPersistFail, A: slot, V: v})
+	}
+	return ops
 }
